@@ -26,20 +26,40 @@
    Mutex = FALSE (peersharing.Client.GetPeers as read, F-C25) TLC finds two
    concurrent callers swapping replies (ReqRespNoMutex.cfg).
 
+   Reply FORM (wave 5). A reply is not only "the answer to request t": it reaches the client in a FORM, and the
+   form selects the branch of the client's message handler that deals with it. "plain" replies are the ones the
+   typed decoder of the client accepts (results, Acquired, AcceptTx, RejectTx with a reason the ledger's error
+   decoder knows). An "opaque" reply (op "qx") is a well-formed reply to the request whose payload the client's
+   typed decoder does NOT accept (a RejectTx reason no known error type parses, a query result of another type).
+   The property says nothing about what a client does with such a reply, so the model admits both (onop):
+     "raw"   the reply is handed to the caller as it is (the caller sees its own reply, undecoded, or a decode
+             error of its own reply) and the connection goes on;
+     "fail"  the handler returns an error instead of handing the reply over: the connection fails (dead), the
+             result channels are closed, the waiting call and every later call return an error and NO reply.
+   In both, OwnAnswer must hold for every reply that is received afterwards, and a call may fail only because the
+   connection failed on an opaque reply (ErrOnlyWhenDead). What must never happen is written down as a model of
+   its own: DupOpaque = TRUE hands the opaque reply over and leaves it in the handler for a second hand-off
+   (a handler branch that sends to the result channel and falls through to the ordinary send): TLC reports
+   OwnAnswer violated, the duplicate is received by the NEXT call (ReqRespDupOpaque.cfg).
+
    Behaviours are emitted (Hist = TRUE) as rows: the programs, the history of
    invocation / return events and, per call, the reply the model's server gave. *)
 EXTENDS Integers, Sequences, FiniteSets, TLC, Json, IOUtils, CSV
 
 CONSTANTS G, N,
-          Ops,          \* subset of {"acq1", "acq2", "rel", "qa", "qb", "qc"}
+          Ops,          \* subset of {"acq1", "acq2", "rel", "qa", "qb", "qc", "qx"}
           Mutex,        \* the client serialises calls with a mutex
           AutoAcquire,  \* a query on a non-acquired client first acquires the tip
           RelRule,      \* restrict the programs so that every release is legal in every interleaving
-          Hist          \* carry and emit the history
+          Hist,         \* carry and emit the history
+          OnOpaque,     \* subset of {"raw", "fail"}: what the client may do with a reply its decoder does not accept
+          DupOpaque     \* model of a broken handler: an opaque reply handed over raw stays in the handler for a second hand-off
 
 Gs == 1..G
 AcqOps == {"acq1", "acq2"}
-QOps == {"qa", "qb", "qc"}
+QOps == {"qa", "qb", "qc", "qx"}
+FormOf(op) == IF op = "qx" THEN "opaque" ELSE "plain"     \* the form in which the server's answer to this request arrives
+ErrRec(op) == [op |-> op, snap |-> -2, acqn |-> 0, cnt |-> 0]   \* the call returned an error and no reply
 PointOf(op) == IF op = "acq1" THEN 1 ELSE 2
 Tip == 9
 None == [k |-> "none"]
@@ -60,8 +80,11 @@ VARIABLES
     snapP, acqN, cnt,   \* server session state
     got,       \* got[g]: <<request tag sent, reply received>> pairs
     out,       \* out[g]: per finished call, what the caller saw
+    onop,      \* what this client does with an opaque reply (constant along a behaviour)
+    dead,      \* the connection failed: no request is sent, no reply is handed over any more
+    dup,       \* DupOpaque only: the reply in the handler has been handed over once already
     h          \* history of <<"I", g>> / <<"R", g>> events (Hist only)
-vars == <<prog, pc, idx, sub, waitk, mu, acquired, sendq, st, srvin, reply, hdl, snapP, acqN, cnt, got, out, h>>
+vars == <<prog, pc, idx, sub, waitk, mu, acquired, sendq, st, srvin, reply, hdl, snapP, acqN, cnt, got, out, onop, dead, dup, h>>
 
 Op(g) == prog[g][idx[g] + 1]
 Tag(g) == <<g, idx[g] + 1, sub[g] + 1>>
@@ -77,6 +100,9 @@ RelLegalProgs(pr) ==
 Init ==
     /\ prog \in [Gs -> [1..N -> Ops]]
     /\ (RelRule => RelLegalProgs(prog))
+    /\ onop \in OnOpaque
+    /\ ((\A g \in Gs : \A i \in 1..N : prog[g][i] # "qx") => onop = CHOOSE x \in OnOpaque : TRUE)  \* no opaque reply: one behaviour, not two
+    /\ dead = FALSE /\ dup = FALSE
     /\ pc = [g \in Gs |-> "idle"] /\ idx = [g \in Gs |-> 0] /\ sub = [g \in Gs |-> 0]
     /\ waitk = [g \in Gs |-> "none"]
     /\ mu = 0 /\ acquired = FALSE
@@ -91,25 +117,30 @@ Invoke(g) ==
     /\ pc[g] = "idle" /\ idx[g] < N
     /\ pc' = [pc EXCEPT ![g] = "lock"]
     /\ Ev(<<"I", g>>)
-    /\ UNCHANGED <<prog, idx, sub, waitk, mu, acquired, sendq, st, srvin, reply, hdl, snapP, acqN, cnt, got, out>>
+    /\ UNCHANGED <<prog, idx, sub, waitk, mu, acquired, sendq, st, srvin, reply, hdl, snapP, acqN, cnt, got, out, onop, dead, dup>>
 
 Lock(g) ==
     /\ pc[g] = "lock" /\ (Mutex => mu = 0)
     /\ mu' = IF Mutex THEN g ELSE mu
     /\ pc' = [pc EXCEPT ![g] = "step"]
-    /\ UNCHANGED <<prog, idx, sub, waitk, acquired, sendq, st, srvin, reply, hdl, snapP, acqN, cnt, got, out, h>>
+    /\ UNCHANGED <<prog, idx, sub, waitk, acquired, sendq, st, srvin, reply, hdl, snapP, acqN, cnt, got, out, onop, dead, dup, h>>
 
 \* next request of the running call
 Step(g) ==
     /\ pc[g] = "step"
     /\ LET op == Op(g) IN
-       IF op = "rel"
-       THEN /\ IF acquired
-               THEN /\ sendq' = Append(sendq, [k |-> "rel", tag |-> Tag(g), p |-> 0, op |-> op])
-                    /\ acquired' = FALSE
-                    /\ out' = [out EXCEPT ![g] = Append(@, [op |-> op, snap |-> 0, acqn |-> 0, cnt |-> 0])]
-               ELSE /\ UNCHANGED <<sendq, acquired>>        \* skipped: nothing to release
-                    /\ out' = [out EXCEPT ![g] = Append(@, [op |-> op, snap |-> -1, acqn |-> 0, cnt |-> 0])]
+       IF op = "rel" /\ ~acquired
+       THEN /\ out' = [out EXCEPT ![g] = Append(@, [op |-> op, snap |-> -1, acqn |-> 0, cnt |-> 0])]   \* skipped: nothing to release
+            /\ pc' = [pc EXCEPT ![g] = "ret"]
+            /\ UNCHANGED <<sendq, acquired, waitk, sub>>
+       ELSE IF dead
+       THEN /\ out' = [out EXCEPT ![g] = Append(@, ErrRec(op))]      \* SendMessage on a failed connection: an error, no request leaves
+            /\ pc' = [pc EXCEPT ![g] = "ret"]
+            /\ UNCHANGED <<sendq, acquired, waitk, sub>>
+       ELSE IF op = "rel"
+       THEN /\ sendq' = Append(sendq, [k |-> "rel", tag |-> Tag(g), p |-> 0, op |-> op])
+            /\ acquired' = FALSE
+            /\ out' = [out EXCEPT ![g] = Append(@, [op |-> op, snap |-> 0, acqn |-> 0, cnt |-> 0])]
             /\ pc' = [pc EXCEPT ![g] = "ret"]
             /\ UNCHANGED <<waitk, sub>>
        ELSE IF op \in AcqOps \/ (op \in QOps /\ AutoAcquire /\ ~acquired)
@@ -124,14 +155,14 @@ Step(g) ==
             /\ sub' = [sub EXCEPT ![g] = @ + 1]
             /\ pc' = [pc EXCEPT ![g] = "wait"]
             /\ UNCHANGED <<acquired, out>>
-    /\ UNCHANGED <<prog, idx, mu, st, srvin, reply, hdl, snapP, acqN, cnt, got, h>>
+    /\ UNCHANGED <<prog, idx, mu, st, srvin, reply, hdl, snapP, acqN, cnt, got, onop, dead, dup, h>>
 
 \* engine: one request at a time, only with client agency
 Wire ==
-    /\ sendq # <<>> /\ st = "ready" /\ srvin = None
+    /\ sendq # <<>> /\ st = "ready" /\ srvin = None /\ ~dead
     /\ srvin' = Head(sendq) /\ sendq' = Tail(sendq)
     /\ st' = IF Head(sendq).k = "rel" THEN "ready" ELSE "busy"
-    /\ UNCHANGED <<prog, pc, idx, sub, waitk, mu, acquired, reply, hdl, snapP, acqN, cnt, got, out, h>>
+    /\ UNCHANGED <<prog, pc, idx, sub, waitk, mu, acquired, reply, hdl, snapP, acqN, cnt, got, out, onop, dead, dup, h>>
 
 \* server: answers the request and tags the reply with it
 Serve ==
@@ -141,31 +172,48 @@ Serve ==
               /\ snapP' = 0 /\ cnt' = 0 /\ UNCHANGED <<acqN, reply>>
          [] srvin.k = "acq" ->
               /\ snapP' = srvin.p /\ acqN' = acqN + 1 /\ cnt' = 0
-              /\ reply' = [k |-> "acq", tag |-> srvin.tag, op |-> srvin.op, snap |-> srvin.p, acqn |-> acqN + 1, cnt |-> 0]
+              /\ reply' = [k |-> "acq", tag |-> srvin.tag, op |-> srvin.op, snap |-> srvin.p, acqn |-> acqN + 1, cnt |-> 0, form |-> "plain"]
          [] srvin.k = "q" ->
-              /\ reply' = [k |-> "res", tag |-> srvin.tag, op |-> srvin.op, snap |-> snapP, acqn |-> acqN, cnt |-> cnt]
+              /\ reply' = [k |-> "res", tag |-> srvin.tag, op |-> srvin.op, snap |-> snapP, acqn |-> acqN, cnt |-> cnt, form |-> FormOf(srvin.op)]
               /\ cnt' = IF srvin.op = "qb" THEN cnt + 1 ELSE cnt
               /\ UNCHANGED <<snapP, acqN>>
-    /\ UNCHANGED <<prog, pc, idx, sub, waitk, mu, acquired, sendq, st, hdl, got, out, h>>
+    /\ UNCHANGED <<prog, pc, idx, sub, waitk, mu, acquired, sendq, st, hdl, got, out, onop, dead, dup, h>>
 
 \* client engine: the reply moves the protocol back to a client-agency state, then the handler runs
 Deliver ==
     /\ reply # None /\ hdl = None
     /\ hdl' = reply /\ reply' = None /\ st' = "ready"
-    /\ UNCHANGED <<prog, pc, idx, sub, waitk, mu, acquired, sendq, srvin, snapP, acqN, cnt, got, out, h>>
+    /\ UNCHANGED <<prog, pc, idx, sub, waitk, mu, acquired, sendq, srvin, snapP, acqN, cnt, got, out, onop, dead, dup, h>>
 
-\* handler: resultChan <- reply; whoever waits on that channel receives it
+\* handler: resultChan <- reply; whoever waits on that channel receives it. An opaque reply is handed over as it
+\* is (onop = "raw") or not at all (onop = "fail", FailConn).
 HandOff(g) ==
-    /\ hdl # None /\ pc[g] = "wait"
+    /\ hdl # None /\ ~dead /\ pc[g] = "wait"
+    /\ ~(hdl.form = "opaque" /\ onop = "fail")
     /\ waitk[g] = (IF hdl.k = "acq" THEN "acq" ELSE "res")
     /\ got' = [got EXCEPT ![g] = Append(@, <<<<g, idx[g] + 1, sub[g]>>, hdl.tag>>)]
     /\ acquired' = IF hdl.k = "acq" THEN TRUE ELSE acquired
-    /\ hdl' = None
+    /\ IF DupOpaque /\ hdl.form = "opaque" /\ ~dup
+       THEN hdl' = hdl /\ dup' = TRUE          \* broken handler: the same reply will be sent to the channel once more
+       ELSE hdl' = None /\ dup' = FALSE
     /\ IF hdl.k = "acq" /\ Op(g) \in QOps
        THEN pc' = [pc EXCEPT ![g] = "step"] /\ UNCHANGED out       \* auto-acquire done: now the query
        ELSE /\ pc' = [pc EXCEPT ![g] = "ret"]
             /\ out' = [out EXCEPT ![g] = Append(@, [op |-> Op(g), snap |-> hdl.snap, acqn |-> hdl.acqn, cnt |-> hdl.cnt])]
-    /\ UNCHANGED <<prog, idx, sub, waitk, mu, sendq, st, srvin, reply, snapP, acqN, cnt, h>>
+    /\ UNCHANGED <<prog, idx, sub, waitk, mu, sendq, st, srvin, reply, snapP, acqN, cnt, onop, dead, h>>
+
+\* handler returns an error for a reply it cannot use: the connection fails, nobody receives the reply
+FailConn ==
+    /\ hdl # None /\ ~dead /\ hdl.form = "opaque" /\ onop = "fail"
+    /\ dead' = TRUE /\ hdl' = None
+    /\ UNCHANGED <<prog, pc, idx, sub, waitk, mu, acquired, sendq, st, srvin, reply, snapP, acqN, cnt, got, out, onop, dup, h>>
+
+\* a caller waiting on a result channel of a failed connection: the channel is closed, the call returns an error
+Abort(g) ==
+    /\ dead /\ pc[g] = "wait"
+    /\ out' = [out EXCEPT ![g] = Append(@, ErrRec(Op(g)))]
+    /\ pc' = [pc EXCEPT ![g] = "ret"]
+    /\ UNCHANGED <<prog, idx, sub, waitk, mu, acquired, sendq, st, srvin, reply, hdl, snapP, acqN, cnt, got, onop, dead, dup, h>>
 
 Return(g) ==
     /\ pc[g] = "ret"
@@ -174,21 +222,22 @@ Return(g) ==
     /\ sub' = [sub EXCEPT ![g] = 0]
     /\ pc' = [pc EXCEPT ![g] = "idle"]
     /\ Ev(<<"R", g>>)
-    /\ UNCHANGED <<prog, waitk, acquired, sendq, st, srvin, reply, hdl, snapP, acqN, cnt, got, out>>
+    /\ UNCHANGED <<prog, waitk, acquired, sendq, st, srvin, reply, hdl, snapP, acqN, cnt, got, out, onop, dead, dup>>
 
 Next ==
-    \/ \E g \in Gs : Invoke(g) \/ Lock(g) \/ Step(g) \/ HandOff(g) \/ Return(g)
-    \/ Wire \/ Serve \/ Deliver
+    \/ \E g \in Gs : Invoke(g) \/ Lock(g) \/ Step(g) \/ HandOff(g) \/ Abort(g) \/ Return(g)
+    \/ Wire \/ Serve \/ Deliver \/ FailConn
 
 Spec == Init /\ [][Next]_vars /\ WF_vars(Next)
 
 --------------------------------------------------------------------------
 Terminal ==
     /\ \A g \in Gs : idx[g] = N /\ pc[g] = "idle"
-    /\ sendq = <<>> /\ srvin = None /\ reply = None /\ hdl = None
+    /\ sendq = <<>> /\ srvin = None /\ reply = None /\ (hdl = None \/ DupOpaque)
 
 TypeOK ==
     /\ mu \in 0..G
+    /\ onop \in OnOpaque /\ dead \in BOOLEAN /\ dup \in BOOLEAN /\ (dup => DupOpaque)
     /\ \A g \in Gs : pc[g] \in {"idle", "lock", "step", "wait", "ret"} /\ idx[g] \in 0..N /\ sub[g] \in 0..2
 
 \* THE property: every reply received answers the request its receiver sent
@@ -206,6 +255,22 @@ OutShape == \A g \in Gs : Len(out[g]) <= N /\ \A k \in 1..Len(out[g]) : out[g][k
 \* under RelRule no release is ever skipped, whatever the interleaving
 RelLegal == RelRule => \A g \in Gs : \A k \in 1..Len(out[g]) : out[g][k].snap # -1
 
+\* REPLY FORM: a call returns an error (and no reply) only on a failed connection, a connection fails only where
+\* the client is of the kind that refuses opaque replies and the programs contain a request answered that way, and
+\* nothing is handed over or sent on a failed connection
+IsErr(o) == o.snap = -2
+ErrOnlyWhenDead ==
+    /\ (\E g \in Gs : \E k \in 1..Len(out[g]) : IsErr(out[g][k])) => dead
+    /\ dead => (onop = "fail" /\ \E g \in Gs : \E i \in 1..N : prog[g][i] = "qx")
+    /\ dead => (hdl = None /\ sendq = <<>>)
+\* an opaque reply handed over raw is the caller's own reply like any other; after a failure every call that starts
+\* returns an error: the calls of one goroutine are values up to some call and errors from there on
+ErrSuffix == \A g \in Gs : \A k \in 1..Len(out[g]) : \A j \in 1..k :
+                 (IsErr(out[g][j]) /\ out[g][k].snap # -1) => IsErr(out[g][k])
+\* every opaque reply ends in exactly one of the two ways at the call that asked for it
+OpaqueOutcome == \A g \in Gs : \A k \in 1..Len(out[g]) :
+                    (out[g][k].op = "qx" /\ onop = "fail") => IsErr(out[g][k])
+
 \* liveness: every call returns
 Termination == <>Terminal
 
@@ -218,5 +283,5 @@ Write(row) == CSVWrite("%1$s", <<ToJson(row)>>, "rows.ndjson")
 EmitRow ==
     (Hist /\ Terminal) =>
         Write([g |-> G, n |-> N, prog |-> prog, h |-> h, out |-> out, seq |-> Sequential,
-               auto |-> AutoAcquire])
+               auto |-> AutoAcquire, onop |-> onop])
 ==============================================================================
